@@ -41,6 +41,8 @@ PATH_ARGS = [
     ("$path", P((("mol", ("lit", "m"), ("lit", 0), None, None), ("prim", "x")), "map_keys", "single")),
     ("$path", P((("prim", "m"),), "map_values")),
     ("$path", P(())),
+    ("$path", P((("prim", "cfg"), ("map", ("lit", 1), None, None)))),
+    ("$path", P((("list", ("lit", 0), None, None), ("map", ("lit", 1.5), None, "L")))),
 ]
 PATHLIKE = [{"path": ["b"]}, {"path.length": ["b"]}, {"Path": ["b"]}, {"path": 1, "x": 2}, {"a": {"path": ["b"]}},
             {"pathological": 1}, [{"path": ["b"]}, 1]]
